@@ -23,5 +23,6 @@ func TestVerifReplay(t *testing.T) {
 		"Verif_C13_TablesGeneric":    Verif_C13_TablesGeneric,
 		"Verif_C12_Attribution":      Verif_C12_Attribution,
 		"Verif_C12_AttributionDecls": Verif_C12_AttributionDecls,
+		"Verif_C12_DocText":          Verif_C12_DocText,
 	})
 }
